@@ -50,6 +50,7 @@ def run(idx: ProgramIndex, rep: Report, tier: str):
     call_time_noise_priority(idx, rep)
     container_interface_complete(idx, rep)
     keyword_translated_for_all_entry_points(idx, rep)
+    noise_given_convention(idx, rep)
 
 
 def marginals(idx: ProgramIndex, rep: Report):
@@ -336,13 +337,21 @@ def noise_first(idx: ProgramIndex, rep: Report):
         has_param = any(x.arg == "noise" for x in a.args + a.kwonlyargs)
         kw = a.kwarg.arg if a.kwarg else None
 
+        noise_locals: set = set()
+
         def mentions_noise(e):
             for x in ast.walk(e):
                 if has_param and isinstance(x, ast.Name) and x.id == "noise":
                     return True
                 if isinstance(x, ast.Constant) and x.value == "noise":
                     return True
+                if isinstance(x, ast.Name) and x.id in noise_locals:
+                    return True  # a local that holds the call-time noise (`given = kwargs.get("noise")`)
             return False
+        for a_ in ast.walk(fw.node):
+            if isinstance(a_, ast.Assign) and len(a_.targets) == 1 and isinstance(a_.targets[0], ast.Name) and isinstance(a_.value, ast.Call) and isinstance(a_.value.func, ast.Attribute) \
+                    and a_.value.func.attr in ("get", "pop") and a_.value.args and isinstance(a_.value.args[0], ast.Constant) and a_.value.args[0].value == "noise":
+                noise_locals.add(a_.targets[0].id)
 
         probs = []
         npaths = 0
@@ -427,6 +436,7 @@ def list_routing(idx: ProgramIndex, rep: Report, clsname: str, member_attr: str,
     def forwarded(extra, elt, extra_sources=()) -> bool:
         return any(isinstance(a, ast.Starred) and isinstance(a.value, ast.Name) and a.value.id == extra for a in elt.args) \
             or any(isinstance(a, ast.Name) and a.id == extra for a in elt.args) \
+            or any(not isinstance(a, ast.Starred) and {x.id for x in ast.walk(a) if isinstance(x, ast.Name)} - {"len", "list", "tuple"} == {extra} for a in elt.args) \
             or any(any(isinstance(x, ast.Name) and x.id == extra for x in ast.walk(k.value)) for k in elt.keywords) \
             or any(any(isinstance(x, ast.Name) and x.id == extra for x in ast.walk(e)) for e in extra_sources)
 
@@ -848,3 +858,29 @@ def keyword_translated_for_all_entry_points(idx: ProgramIndex, rep: Report):
                     "translated in %s" % ", ".join(sorted(where)) if ok else
                     "the keyword `%s` is turned into the call-time noise in %s only; %s obtain the noise through _shaped_noise_covar without it and silently use the stored noise (marginal(dist, %s=test_labels) adds the training noise: error 2.38)" % (kw, ", ".join(sorted(where)), ", ".join(e for e in ENTRY if e not in where), kw), {})
     rep.floor("C12-13", "translated call-time keywords", n, 1)
+
+
+# ---- C12-14 --------------------------------------------------------------------------------------------------------
+def noise_given_convention(idx: ProgramIndex, rep: Report):
+    """Everywhere in the likelihood code `noise=None` means 'no noise given for this call' (FixedGaussianNoise and HeteroskedasticNoise
+    test `noise is not None`, LikelihoodList hands None to the members it has no noise for, get_fantasy_likelihood accepts it).  A noise
+    model that decides with `"noise" in kwargs` takes an explicit None for a noise and builds DiagLinearOperator(None): a
+    LikelihoodList(GaussianLikelihood(), FixedNoiseGaussianLikelihood(...)) cannot be given call-time noise for its second member only."""
+    rep.rule("C12-14", "the noise models agree on what 'a noise was given at call time' means: the value is tested with `is not None`, not the presence of the keyword")
+    mi = idx.module("gpytorch.likelihoods.noise_models")
+    n = 0
+    for cls in sorted(mi.classes.values(), key=lambda c: c.qualname):
+        fw = cls.methods.get("forward")
+        if fw is None:
+            continue
+        takes_noise = "noise" in [a.arg for a in fw.node.args.args + fw.node.args.kwonlyargs] or fw.node.args.kwarg is not None
+        if not takes_noise:
+            continue
+        n += 1
+        presence = [c for c in ast.walk(fw.node) if isinstance(c, ast.Compare) and len(c.ops) == 1 and isinstance(c.ops[0], (ast.In, ast.NotIn)) and const_str(c.left) == "noise"]
+        valued = [c for c in ast.walk(fw.node) if isinstance(c, ast.Compare) and len(c.ops) == 1 and isinstance(c.ops[0], (ast.Is, ast.IsNot)) and isinstance(c.comparators[0], ast.Constant) and c.comparators[0].value is None and "noise" in src(c.left)]
+        ok = not presence or bool(valued)
+        rep.add("C12-14", "%s:%s.forward[noise given]" % (mi.name, cls.qualname), fw.where, ok,
+                "a call-time noise is recognised by its value (`is not None`)" if ok else
+                "`%s` decides whether a noise was given: an explicit noise=None (the convention for 'none for this member', e.g. LikelihoodList(..., noise=[None, n2])) is taken for a noise and DiagLinearOperator(None) raises AttributeError in __call__, marginal, log_marginal, expected_log_prob and forward" % src(presence[0]), {})
+    rep.floor("C12-14", "noise models that accept a call-time noise", n, 3)
